@@ -155,9 +155,9 @@ def ptrOps (st : State) (op : Op) : Option (Nat × List Ptr.POp) :=
   | .lclear v => some (v, [.clear])
   | .lassign v => some (v, [.clear, .insertList 0 (other v)])
   | .lsort v => some (v, [.sort])
-  | .lappendself v => some (v, [.insertList (st.getL v).size (st.getL v).vals])
-  | .lprependself v => some (v, [.insertList 0 (st.getL v).vals])
-  | .linsertself v k => some (v, [.insertList k (st.getL v).vals])
+  | .lappendself v => some (v, [.insertSelf (st.getL v).size])
+  | .lprependself v => some (v, [.insertSelf 0])
+  | .linsertself v k => some (v, [.insertSelf k])
   | .pappend v x => some (2 + v, [.insert (st.getP v).size x])
   | .premove v k => some (2 + v, [.remove k])
   | .premovev v k => some (2 + v, [.remove k])
